@@ -335,6 +335,46 @@ def extra_sequences(ctx, LOG):
     return n
 
 
+def explicit_empty_name_cases(ctx, LOG):
+    """An explicit port name beats the environment - also the empty string, which is a name like any other to
+    open_input / open_output and to a native IOPort (what a wrapped pair does with it is left open: the code asks
+    `if name:` there)."""
+    import mido
+    n = 0
+    saved_env = {k: os.environ.get(k) for k in ENVV}
+    try:
+        for k in ENVV:
+            os.environ.pop(k, None)
+        os.environ['MIDO_DEFAULT_INPUT'], os.environ['MIDO_DEFAULT_OUTPUT'], os.environ['MIDO_DEFAULT_IOPORT'] = 'envin', 'envout', 'envio'
+        for mod, (has_io, has_gd) in VARIANTS.items():
+            for use_environ in (True, False):
+                for via in ('backend', 'top-level'):
+                    purge()
+                    b = Backend(mod, use_environ=use_environ)
+                    if via == 'top-level':
+                        mido.set_backend(b)
+                    tgt = mido if via == 'top-level' else b
+                    for entry, kind in (('open_input', 'Input'), ('open_output', 'Output')) + ((('open_ioport', 'IOPort'),) if has_io else ()):
+                        for how in ('positional', 'keyword'):
+                            case = {'kind': 'empty-name', 'module': mod, 'entry': entry, 'use_environ': use_environ, 'via': via, 'how': how}
+                            del LOG[:]
+                            try:
+                                r = getattr(tgt, entry)('') if how == 'positional' else getattr(tgt, entry)(name='')
+                                got = [e[:3] for e in LOG if e[0] != 'import']
+                                ctx.check('constructor calls == model', got == [(kind, mod, '')], 'explicit-empty-name-replaced', case, got)
+                            except Exception as exc:
+                                ctx.fail('no exception', f'empty-name:{type(exc).__name__}', case, f'{type(exc).__name__}: {exc}')
+                            n += 1
+    finally:
+        for k, v in saved_env.items():
+            if v is None:
+                os.environ.pop(k, None)
+            else:
+                os.environ[k] = v
+        mido.set_backend()
+    return n
+
+
 def subclass_and_empty_env(ctx, LOG):
     """load() is the documented hook ("will be called if you access the 'module' property"): a
     subclass overriding it is honoured.  An empty MIDO_DEFAULT_IOPORT counts as unset."""
@@ -779,6 +819,9 @@ def run(ctx):
                 ctx.nontrivial(None, k)
                 n += k
                 k = subclass_and_empty_env(ctx, LOG)
+                ctx.nontrivial(None, k)
+                n += k
+                k = explicit_empty_name_cases(ctx, LOG)
                 ctx.nontrivial(None, k)
                 n += k
         finally:
